@@ -12,7 +12,7 @@ import json
 import random
 
 from .. import tlc
-from ..absgrammar import (all_texts, alt, call, chars_of, eof, grammar, make_cfg, named, namedlist, opt, pat, rule, seq, star, tok,
+from ..absgrammar import (all_texts, alt, call, chars_of, eof, grammar, make_cfg, named, namedlist, opt, ovr, pat, rule, seq, star, tok,
                           to_ebnf, unval)
 from ..common import Check, pmap
 from ..pegcheck import Jobs, default_case, run_impl, run_oracle
@@ -196,9 +196,16 @@ def part_b(ck, tier):
         'list': grammar(rule('s', star(call('y'))), rule('y', seq(named('k', alt(a, b)), namedlist('m', opt(p))))),
         'backtrack': grammar(rule('s', alt(seq(call('y'), p), seq(call('y'), b), call('y'))), rule('y', named('v', a))),   # memo hits
         'leftrec': grammar(rule('s', seq(call('e'), eof())), rule('e', alt(seq(named('l', call('e')), p, named('r', a)), named('r', a)))),
+        # a rule that passes the AST of an inner invocation OF ITSELF through (a = 'a' @:a 'b' | x:'+'), abandoned in the first option and asked for
+        # again - from the memo - at the inner offset by the second: the inner AST keeps the inner invocation's offsets
+        'self-pass-through': grammar(rule('s', alt(seq(call('y'), a), seq(call('z'), eof()))), rule('y', alt(seq(a, ovr(call('y')), b), named('x', p))),
+                                     rule('z', seq(a, named('inner', call('y')), b, named('mark', p)))),
+        'self-pass-through-2': grammar(rule('s', alt(seq(call('y'), a), seq(a, named('inner', call('y')), b, named('k', star(p)), eof()))),
+                                       rule('y', alt(seq(a, ovr(call('y')), b), seq(a, ovr(call('y'))), named('x', p)))),
     }
     base = all_texts(['a', 'b', ' ', '\n'], 4 if tier == 'quick' else 5)
-    extra = [list(t) for t in [' a\n b', 'a\r\nb', '\n\na b', 'a +\nb', 'a+a+a', ' a + a', 'a\rb', '\r\n a b +']]
+    extra = [list(t) for t in [' a\n b', 'a\r\nb', '\n\na b', 'a +\nb', 'a+a+a', ' a + a', 'a\rb', '\r\n a b +',
+                               'a+b+', 'a +\nb +', 'aa+bb+', '\na\n+b+', 'a+b', 'aa+b+', 'a\n a + b\n b +', 'a+b++']]
     texts = base + extra
     jobs, cases = Jobs(), []
     for name, g in gs.items():
